@@ -105,6 +105,8 @@ void *memcpy(void *dst, const void *src, size_t n)
     if (n != 0) {
 	__CPROVER_assert(__CPROVER_w_ok(dst, n), "memcpy: destination writable for n bytes");
 	__CPROVER_assert(__CPROVER_r_ok(src, n), "memcpy: source readable for n bytes");
+	/* once reported, an out-of-bounds copy is not executed: what it would overwrite is garbage that only costs solver time */
+	__CPROVER_assume(__CPROVER_w_ok(dst, n) && __CPROVER_r_ok(src, n));
     }
     for (i = 0; i < w; ++i)
 	((uint64_t *)dst)[i] = ((const uint64_t *)src)[i];
@@ -120,6 +122,7 @@ void *memmove(void *dst, const void *src, size_t n)
     if (n != 0) {
 	__CPROVER_assert(__CPROVER_w_ok(dst, n), "memmove: destination writable for n bytes");
 	__CPROVER_assert(__CPROVER_r_ok(src, n), "memmove: source readable for n bytes");
+	__CPROVER_assume(__CPROVER_w_ok(dst, n) && __CPROVER_r_ok(src, n));
     }
     if ((const char *)dst <= (const char *)src) {
 	for (i = 0; i < w; ++i)
@@ -141,8 +144,10 @@ void *memset(void *dst, int c, size_t n)
     uint64_t b = (unsigned char)c;
     uint64_t word = b * 0x0101010101010101ULL;
 
-    if (n != 0)
+    if (n != 0) {
 	__CPROVER_assert(__CPROVER_w_ok(dst, n), "memset: destination writable for n bytes");
+	__CPROVER_assume(__CPROVER_w_ok(dst, n));
+    }
     for (i = 0; i < w; ++i)
 	((uint64_t *)dst)[i] = word;
     for (i = w * 8; i < n; ++i)
